@@ -44,9 +44,8 @@ impl ForNextCounterMatch {
                 ExpressionType::BuiltIn(_) => Ok(()),
                 _ => Err(LintError::TypeMismatch.at_pos(*pos)),
             },
-            _ => panic!(
-                "It should not be possible for the FOR variable to be something other than a variable"
-            ),
+            // e.g. an array element or a property
+            _ => Err(LintError::VariableRequired.at_pos(*pos)),
         }
     }
 
@@ -68,9 +67,10 @@ impl ForNextCounterMatch {
                             Err(LintError::NextWithoutFor.at(pos))
                         }
                     }
-                    _ => unimplemented!(),
+                    // e.g. NEXT A(1)
+                    _ => Err(LintError::NextWithoutFor.at(pos)),
                 },
-                _ => unimplemented!(),
+                _ => Err(LintError::VariableRequired.at(&f.variable_name)),
             }
         } else {
             // does not have a NEXT variable
